@@ -70,7 +70,7 @@ technique_round3["C19"] += ", ordering rule (copy parent state before adding key
 technique_round3["C01"] += ", window rule through helper reads with both-edge guard normalisation, sibling agreement of comparisons with a named byte constant"
 technique_round3["C02"] += ", key-provenance rule for lower-case word tables, per-cycle index-advance rule in the resolving writer"
 technique_round3["C06"] += ", global-rooted write rule over constructors and option constructors"
-technique_round3["C08"] += ", segment-provenance rule for source slices in render functions"
+technique_round3["C08"] += ", segment-provenance rule for source slices in render functions, taint rule: the preceding character reaches no comparison with a white-space constant"
 technique_round3["C10"] += ", allocation-rooted application of functional options in constructors, segment-provenance rule for source slices in render functions"
 technique_round3["C11"] += ", allow-list of registration constructors for the options an Extend method passes on, per-edge byte-set data-flow over the typographer, dominance of a caret test on the peeked line in the footnote parsers"
 technique_round3["C13"] += ", path rule: end pointers stored wherever the unlinked child was first or last, adopted-parameter propagation for detach-from-anywhere helpers"
